@@ -316,3 +316,98 @@ Qed.
 Example enc_example :
   encode (s2l "a  b") = [TText (s2l "a "); TS (Some 1%nat); TText (s2l "b")].
 Proof. vm_compute. reflexivity. Qed.
+
+(* ---------------- the children as a parser returns them ---------------- *)
+Lemma extract_merge_text ns : extract (merge_text ns) = extract ns.
+Proof.
+  induction ns as [|n r IH]; [reflexivity|].
+  destruct n as [a| | | | |]; cbn [merge_text]; try (unfold extract in *; cbn [flat_map]; now rewrite IH).
+  unfold extract in *. cbn [flat_map extract_node]. rewrite <- IH.
+  destruct (merge_text r) as [|[b| | | | |] r'] eqn:E; cbn [flat_map extract_node];
+    try (destruct a; cbn [flat_map extract_node]; reflexivity).
+  now rewrite app_assoc.
+Qed.
+
+Lemma extract_reparse_node : forall n, no_cdata_node n = true -> extract_node (reparse_node n) = extract_node n.
+Proof.
+  fix IH 1. intros [s|s|c| | |kids] H; try reflexivity; [discriminate|].
+  cbn [reparse_node extract_node]. change (flat_map extract_node ?l) with (extract l).
+  rewrite extract_merge_text. cbn [no_cdata_node] in H.
+  induction kids as [|k r IHr]; [reflexivity|].
+  cbn [forallb] in H. apply andb_true_iff in H as [Hk Hr].
+  unfold extract in *. cbn [map flat_map]. rewrite (IH k Hk), (IHr Hr). reflexivity.
+Qed.
+
+Theorem teletype_reparse_extract ns :
+  forallb no_cdata_node ns = true -> extract (reparse ns) = extract ns.
+Proof.
+  intro H. unfold reparse. rewrite extract_merge_text.
+  induction ns as [|k r IHr]; [reflexivity|].
+  cbn [forallb] in H. apply andb_true_iff in H as [Hk Hr].
+  unfold extract in *. cbn [map flat_map]. rewrite (extract_reparse_node k Hk), (IHr Hr). reflexivity.
+Qed.
+
+(* the nodes of one call hold no CDATA section and no nested element *)
+Definition flat_node (n : tnode) : bool :=
+  match n with TCData _ | TOther _ => false | _ => true end.
+Lemma flat_app a b : forallb flat_node (a ++ b) = forallb flat_node a && forallb flat_node b.
+Proof. apply forallb_app. Qed.
+Lemma flat_flush buf : forallb flat_node (flush buf) = true.
+Proof. destruct buf; reflexivity. Qed.
+Lemma flat_close buf sc : forallb flat_node (fst (close_run buf sc)) = true.
+Proof. destruct sc as [[|k]|]; cbn; try reflexivity. rewrite flat_app, flat_flush. reflexivity. Qed.
+Lemma enc_flat s : forall buf sc, forallb flat_node (enc s buf sc) = true.
+Proof.
+  induction s as [|c r IH]; intros buf sc; cbn [enc].
+  - pose proof (flat_close buf sc) as F. destruct (close_run buf sc) as [out buf']. cbn [fst] in F.
+    now rewrite flat_app, F, flat_flush.
+  - pose proof (flat_close buf sc) as F.
+    assert (G : forallb flat_node
+      (let '(out, buf') := close_run buf sc in
+       if c =? cTAB then out ++ flush buf' ++ TTab :: enc r [] None
+       else if c =? cLF then out ++ flush buf' ++ TLineBreak :: enc r [] None
+       else if c =? cSP then out ++ enc r (buf' ++ [cSP]) (Some 0%nat)
+       else out ++ enc r (buf' ++ [c]) None) = true).
+    { destruct (close_run buf sc) as [out buf']. cbn [fst] in F.
+      destruct (c =? cTAB); [|destruct (c =? cLF); [|destruct (c =? cSP)]];
+        rewrite ?flat_app, ?F, ?flat_flush; cbn [forallb flat_node andb]; rewrite ?IH; reflexivity. }
+    destruct sc as [k|]; [destruct (c =? cSP); [apply IH|exact G]|exact G].
+Qed.
+
+(* a flat list with no text nodes side by side and no empty text node is what the parser returns *)
+Lemma reparse_flat_id ns :
+  forallb flat_node ns = true -> map reparse_node ns = ns.
+Proof.
+  induction ns as [|n r IH]; [reflexivity|]. cbn [forallb map]. intro H.
+  apply andb_true_iff in H as [Hn Hr]. rewrite (IH Hr). destruct n; try discriminate; reflexivity.
+Qed.
+Lemma merge_text_id ns :
+  all_clean ns = true -> no_adjacent_text ns = true -> merge_text ns = ns.
+Proof.
+  induction ns as [|n r IH]; [reflexivity|]. intros Hc Ha.
+  unfold all_clean in *. cbn [forallb] in Hc. apply andb_true_iff in Hc as [Hn Hr].
+  assert (Ha' : no_adjacent_text r = true).
+  { destruct n; cbn [no_adjacent_text] in Ha; try exact Ha. destruct r as [|[]]; try exact Ha; try reflexivity. discriminate. }
+  specialize (IH Hr Ha').
+  destruct n as [a| | | | |]; cbn [merge_text]; rewrite IH; try reflexivity.
+  destruct r as [|[b| | | | |] r']; cbn [no_adjacent_text] in Ha; try discriminate;
+    (destruct a; [cbn in Hn; discriminate|reflexivity]).
+Qed.
+
+Theorem teletype_reparse_fixpoint s : reparse (encode s) = encode s.
+Proof.
+  unfold reparse, encode. rewrite reparse_flat_id by apply enc_flat.
+  apply merge_text_id; [apply teletype_clean | apply teletype_no_adjacent_text].
+Qed.
+
+Theorem teletype_saved_roundtrip kids s :
+  forallb no_cdata_node kids = true ->
+  extract (reparse (add_text_to_element kids s)) = extract kids ++ s.
+Proof.
+  intro H. rewrite teletype_reparse_extract.
+  - apply teletype_roundtrip.
+  - unfold add_text_to_element. rewrite forallb_app, H. cbn [andb].
+    assert (F : forallb flat_node (encode s) = true) by apply enc_flat.
+    induction (encode s) as [|n r IH]; [reflexivity|]. cbn [forallb] in *.
+    apply andb_true_iff in F as [Fn Fr]. rewrite (IH Fr). destruct n; try discriminate; reflexivity.
+Qed.
